@@ -120,7 +120,7 @@ def h_sound(ctx, cfg):
 def plan(tier):
     if tier == 'quick':
         return [
-            dict(name='grammar-quick', fn='h_sound', depth=10, budget_s=300, cfg=_c06.QUICK, bounds=_c06.QUICK_BOUNDS,
+            dict(name='grammar-quick', fn='h_sound', depth=10, budget_s=900, cfg=_c06.QUICK, bounds=_c06.QUICK_BOUNDS,
                  min_nontrivial=500, must_reach=['sound', 'tainted-star-not-advertised', 'sound-for-some-hidden-contents']),
             dict(name='posonly-outer', fn='h_sound', depth=8, budget_s=120,
                  cfg=dict(groups=['contexts'], Ko=1, Kc=1, kmax=0, nmax=0, route_list=['self', 'param-partial'],
